@@ -46,6 +46,16 @@ Definition local_look (l : look) : bool :=
   end.
 Definition local_looks (h : hir) : bool := negb (has_look (fun l => negb (local_look l)) h).
 
+(* the same for CRLF lines: the CRLF line anchors (what `^`/`$` translate to under --crlf) and the
+   ASCII word assertions *)
+Definition local_look_crlf (l : look) : bool :=
+  match l with
+  | LStartCRLF | LEndCRLF | LWordAscii | LWordAsciiNegate | LWordStartAscii | LWordEndAscii
+  | LWordStartHalfAscii | LWordEndHalfAscii => true
+  | _ => false
+  end.
+Definition local_looks_crlf (h : hir) : bool := negb (has_look (fun l => negb (local_look_crlf l)) h).
+
 (* ---- RegexMatcher::find_candidate_line (crates/regex/src/matcher.rs) ----
    With a fast line regex (the alternation of the inner literals) it answers Candidate(end of the
    leftmost occurrence of a literal; among literals starting there, the first in list order);
